@@ -262,10 +262,13 @@ Definition node_dur (x : nat) (tr : list ev) : Z := zsum (map (node_term x) tr).
 Definition edge_dur (x y : nat) (tr : list ev) : Z := zsum (map (edge_term x y) tr).
 Definition total_dur (tr : list ev) : Z := zsum (map any_term tr).
 
+Definition adjb (t : rtree) (a b : nat) : bool :=
+  existsb (fun e => (Nat.eqb (fst e) a && Nat.eqb (snd e) b) || (Nat.eqb (fst e) b && Nat.eqb (snd e) a)) (edges t).
+
 (* every link / two-site event sits on a tree edge *)
 Definition on_tree_edge (t : rtree) (e : ev) : bool :=
   match e with
-  | Link a b _ | TwoSite a b _ => adjacentb t a b
+  | Link a b _ | TwoSite a b _ => adjb t a b
   | _ => true
   end.
 
@@ -376,7 +379,7 @@ Definition exec (t : rtree) (s : cst) (e : ev) : option cst :=
       if Nat.eqb (centre s) n && no_pend s && env_fresh t s n None
       then Some (mk_cst n None (bump n (vers s)) (blocks s)) else None
   | Split a b =>
-      if Nat.eqb (centre s) a && no_pend s && adjacentb t a b
+      if Nat.eqb (centre s) a && no_pend s && adjb t a b
       then Some (mk_cst a (Some (a, b)) (bump a (vers s)) (blocks s)) else None
   | Link a b _ =>
       match pend s with
@@ -389,15 +392,15 @@ Definition exec (t : rtree) (s : cst) (e : ev) : option cst :=
       | None => None
       end
   | TwoSite a b _ =>
-      if Nat.eqb (centre s) a && no_pend s && adjacentb t a b &&
+      if Nat.eqb (centre s) a && no_pend s && adjb t a b &&
          env_fresh t s a (Some b) && env_fresh t s b (Some a)
       then Some (mk_cst b None (bump a (bump b (vers s))) (blocks s)) else None
   | Move a b =>
-      if Nat.eqb (centre s) a && no_pend s && adjacentb t a b
+      if Nat.eqb (centre s) a && no_pend s && adjb t a b
       then Some (mk_cst b None (bump a (bump b (vers s))) (blocks s)) else None
   | Cache n m =>
       (* contract_any(n, m): n's tensor with the blocks of all other neighbours of n *)
-      if adjacentb t n m && env_fresh t s n (Some m)
+      if adjb t n m && env_fresh t s n (Some m)
       then Some (mk_cst (centre s) (pend s) (vers s) (((n, m), stamp t (vers s) n m) :: blocks s)) else None
   | Reinit => Some (mk_cst (centre s) (pend s) (vers s) [])
   | AssertCentre n => if Nat.eqb (centre s) n && no_pend s then Some s else None
